@@ -251,21 +251,46 @@ package ice
 //@   ensures[C16] result0 == p.freq
 //@
 //@ func (*PostingsIterator).nextAtOrAfter
+//@   ensures[C16] result1 != nil ==> result0 == nil
 //@   ghostset mergedfreq = old(mergedfreq) + ite(result0 != nil, cast(result0, "*Posting").freq, 0)
 //@   ensures[C16] result0 != nil ==> dyntype(result0) == typetag("*Posting") && cast(result0, "*Posting").freq >= 0
 //@   ensures[C16] mergedfreq == old(mergedfreq) + ite(result0 != nil, cast(result0, "*Posting").freq, 0)
 //@
 //@ func (*PostingsIterator).Next
+//@   ensures[C16] result1 != nil ==> result0 == nil
 //@   ensures[C16] result0 != nil ==> dyntype(result0) == typetag("*Posting") && cast(result0, "*Posting").freq >= 0
 //@   ensures[C16] mergedfreq == old(mergedfreq) + ite(result0 != nil, cast(result0, "*Posting").freq, 0)
 //@
+//@ // prepareNewTerm only counts documents; it delivers no posting and must leave the statistics alone
 //@ func prepareNewTerm
-//@   ensures[C16] fieldFreqs[uint16(fieldID)] - mergedfreq == old(fieldFreqs[uint16(fieldID)] - mergedfreq)
+//@   ensures[C16] mergedfreq == old(mergedfreq)
+//@
+//@ func decodeFreqHasLocs
+//@   safety[C01,C05] wrap conv
+//@   ensures[C01,C05,C10,C16] result0 == freqHasLocs / 2 && result1 == (freqHasLocs % 2 == 1) && result0 >= 0
+//@
+//@ func encodeFreqHasLocs
+//@   requires[C01] freq <= 9223372036854775807
+//@   safety[C01] wrap conv
+//@   ensures[C01,C02,C10] result0 == 2 * freq + ite(hasLocs, 1, 0)
+//@
+//@ func (*PostingsIterator).readFreqNormHasLocs
+//@   ensures[C05,C16] err == nil ==> freq >= 0
 //@
 //@ func mergeTermFreqNormLocs
-//@   ensures[C16] mergedfreq >= old(mergedfreq)
+//@   requires[C16] 0 <= fieldID && fieldID <= 65535 && postItr != nil && fieldFreqs != nil
+//@   let pending = ite(next != nil, cast(next, "*Posting").freq, 0)
+//@   loop 0 invariant[C16] next != nil ==> dyntype(next) == typetag("*Posting") && cast(next, "*Posting").freq >= 0
+//@   loop 0 invariant[C16] fieldFreqs[uint16(fieldID)] - mergedfreq + pending == old(fieldFreqs[uint16(fieldID)] - mergedfreq)
+//@   ensures[C16] err == nil ==> fieldFreqs[uint16(fieldID)] - mergedfreq == old(fieldFreqs[uint16(fieldID)] - mergedfreq)
+//@
+//@ func (*PostingsList).iterator
+//@   ensures[C05,C13,C16] result1 == nil ==> result0 != nil
+//@
+//@ func persistMergedRest
+//@   assume len(fieldsInv) <= 65535
 //@
 //@ func persistMergedRestField
-//@   requires[C16] 0 <= fieldID && fieldID <= 65535
+//@   requires[C16] 0 <= fieldID && fieldID <= 65535 && fieldFreqs != nil
 //@   loop 0 invariant[C16] fieldFreqs[uint16(fieldID)] - mergedfreq == old(fieldFreqs[uint16(fieldID)] - mergedfreq)
 //@   ensures[C16] result0 == nil ==> fieldFreqs[uint16(fieldID)] - mergedfreq == old(fieldFreqs[uint16(fieldID)] - mergedfreq)
